@@ -339,7 +339,9 @@ pub fn gen_conflict(r: &mut Rng, svcs: &[Svc]) -> Option<String> {
         }
         _ => {} // same data: no conflict
     }
-    let mut recs = svc_records(&o, 120, 4500, true);
+    // (a peer that repeats OUR data - same RDATA, with or without the cache-flush bit, in whatever
+    // spelling - claims nothing: no conflict)
+    let mut recs = svc_records(&o, 120, 4500, !r.chance(1, 4));
     // the other host may spell the names in another letter case
     if r.chance(1, 3) {
         let spell = 1 + r.below(3);
@@ -554,10 +556,35 @@ pub fn gen_renamed_asked(r: &mut Rng, tag: &'static str) -> String {
     cmds.push(format!("run {}", now));
     let v4_ok = topo.ifs.iter().any(|i| !i.2.contains(':'));
     let inj = |q: &str| if v4_ok { format!("inject 0 2 1 192.168.1.50 5353 {}", q) } else { format!("inject 0 2 0 fe80::50 5353 {}", q) };
-    for _ in 0..8 {
-        if let Some(q) = gen_conflict(r, std::slice::from_ref(&s)) {
+    if r.chance(1, 3) {
+        // an ECHO, not a conflict: a peer repeats our own address records (all of them, or one of
+        // several), with or without the cache-flush bit, maybe in another letter case - nobody
+        // claims the name with different data, nothing may be renamed
+        let mut recs: Vec<RecDesc> = svc_records(&s, 120, 4500, r.chance(1, 2));
+        if r.chance(1, 2) {
+            let spell = 1 + r.below(3);
+            for rec in recs.iter_mut() {
+                rec.name = flip_case(&rec.name, spell);
+            }
+        }
+        let mut d = MsgDesc { flags: 0x8400, ..Default::default() };
+        let one = r.chance(1, 2);
+        for rec in recs {
+            if rec.ty == 12 && d.answers.is_empty() {
+                d.answers.push((rec, 0));
+            } else if (rec.ty == 1 || rec.ty == 28) && !(one && d.answers.len() >= 2) {
+                d.answers.push((rec, 0));
+            }
+        }
+        if let Some(q) = packet(&d, 0) {
             cmds.push(inj(&q));
-            break;
+        }
+    } else {
+        for _ in 0..8 {
+            if let Some(q) = gen_conflict(r, std::slice::from_ref(&s)) {
+                cmds.push(inj(&q));
+                break;
+            }
         }
     }
     now += 100;
